@@ -22,6 +22,26 @@ check("C01", "DESIGN.md 5/C01",
       "Trusted: rendering of abstract tokens to text, alpha on Term/Structured, TLC and the CommunityModules. Bounded: token "
       "strings <= 4 (quick) / <= 5-6 (thorough) exhaustively; depth-6 random formulas in the trace leg.")
 
+check("C14", "DESIGN.md 5/C14",
+      "TLA+ character-level model Lexer.tla composed with Wilkinson.tla, totality and flag monotonicity model-checked in TLC; "
+      "exhaustive replay of every bounded character string; trace validation of mutation-fuzzed strings (Trace_C14)",
+      "TLC assigns an outcome to every character string in the bound (no stuck state of the composed lexer/parser machine) and proves "
+      "flag monotonicity; every enumerated string and tens of thousands of fuzzed strings are parsed by the real parser and a verdict is "
+      "raised exactly for what the statement forbids (escaped exception, timeout, SyntaxError without an invalid python fragment, "
+      "acceptance of a string that needs a disabled operator).",
+      "Trusted: ast.parse as oracle of fragment validity, lexical classes from the documented regexes. Bounded: strings <= 3-4 chars "
+      "(quick) / <= 4-6 (thorough) exhaustively, fuzzed strings up to 120 chars.")
+
+check("C15", "DESIGN.md 5/C15",
+      "TLA+ tokenizer state machine Lexer.tla with declarative span/verbatim/whitespace laws model-checked in TLC; exhaustive "
+      "token-for-token replay against tokenize(); trace validation of recorded tokenizations, re-spacings and python reformattings (Trace_Lexer)",
+      "TLC proves on every string in the bound that spans are ordered, well-formed and faithful, that a space at any operator/grouping "
+      "boundary changes no token, that balanced python fragments and backtick contents are verbatim (with the exact exception law); the "
+      "real tokenizer is compared token for token (text, kind, start, end) on every enumerated string and validated by TLC on random "
+      "formulas with unicode names.",
+      "Trusted: character classes computed with the regexes tokenize() documents; ast.dump as oracle of 'same python up to formatting'. "
+      "Known finding D15 (names ending in an odd run of backslashes) is reported as KNOWN-FINDING.")
+
 NOT_YET = "check not yet built in this round (planned; see DESIGN.md section 5)"
 
 
